@@ -3,6 +3,7 @@ SPECIFICATION Spec
 CONSTANTS
   MaxLua = 1
   AmountSigns <- Signs3
+  Direct = TRUE
   ForkVersions <- Fork5
 VIEW view
 CONSTRAINT Bounded
